@@ -858,3 +858,62 @@ func genClassify(repo, out string) {
 	b.WriteString("def classifyEvents : List (String × String) := [\n" + strings.Join(xs, ",\n") + "]\n\nend Hk.Gen\n")
 	must(os.WriteFile(filepath.Join(out, "ClassifyTree.lean"), []byte(b.String()), 0o644))
 }
+
+
+// genDeciders reads the two boolean deciders classifyDelivery relies on (isSuccess, shouldRetry) as if / endif / return
+// programs with the source text of every condition and returned expression.
+func genDeciders(repo, out string) {
+	path := filepath.Join(repo, "internal/dispatcher/push.go")
+	fset, f := parseFile(path)
+	src, err := os.ReadFile(path)
+	check(err)
+	text := func(n ast.Node) string {
+		return strings.Join(strings.Fields(string(src[fset.Position(n.Pos()).Offset:fset.Position(n.End()).Offset])), " ")
+	}
+	var b strings.Builder
+	b.WriteString("/- GENERATED by /verif/extract — isSuccess and shouldRetry of internal/dispatcher/push.go as if / endif / return programs. do not edit. -/\nnamespace Hk.Gen\n\n")
+	for _, name := range []string{"isSuccess", "shouldRetry"} {
+		fd := findFunc(f, name)
+		if fd == nil || fd.Body == nil {
+			check(fmt.Errorf("push.go: no %s", name))
+		}
+		type ev struct {
+			pos        int
+			kind, name string
+		}
+		var evs []ev
+		ast.Inspect(fd.Body, func(n ast.Node) bool {
+			switch x := n.(type) {
+			case *ast.FuncLit:
+				return false
+			case *ast.IfStmt:
+				evs = append(evs, ev{fset.Position(x.Pos()).Offset, "if", text(x.Cond)})
+				if x.Else == nil {
+					evs = append(evs, ev{fset.Position(x.Body.End()).Offset, "endif", ""})
+				} else {
+					evs = append(evs, ev{fset.Position(x.Body.End()).Offset, "else", ""})
+					evs = append(evs, ev{fset.Position(x.Else.End()).Offset, "endif", ""})
+				}
+			case *ast.AssignStmt:
+				evs = append(evs, ev{fset.Position(x.Pos()).Offset, "assign", text(x)})
+			case *ast.ReturnStmt:
+				r := ""
+				if len(x.Results) == 1 {
+					r = text(x.Results[0])
+				}
+				evs = append(evs, ev{fset.Position(x.Pos()).Offset, "return", r})
+			case *ast.ForStmt, *ast.RangeStmt, *ast.SwitchStmt, *ast.GoStmt, *ast.DeferStmt:
+				check(fmt.Errorf("push.go %s: a statement this translation does not read", name))
+			}
+			return true
+		})
+		sort.SliceStable(evs, func(i, j int) bool { return evs[i].pos < evs[j].pos })
+		var xs []string
+		for _, e := range evs {
+			xs = append(xs, fmt.Sprintf("  (%s, %s)", leanStr(e.kind), leanStr(e.name)))
+		}
+		b.WriteString("def " + name + "Program : List (String × String) := [\n" + strings.Join(xs, ",\n") + "]\n\n")
+	}
+	b.WriteString("end Hk.Gen\n")
+	must(os.WriteFile(filepath.Join(out, "Deciders.lean"), []byte(b.String()), 0o644))
+}
